@@ -528,7 +528,7 @@ func bucket(n int) string {
 // generators
 
 func genOpts() zm.GenOpts {
-	o := zm.GenOpts{MaxItems: 10, HostileLabels: true, OnExcluded: pbt.Excluded, UncertainTTL: true, MissingTTLShape: true}
+	o := zm.GenOpts{MaxItems: 10, HostileLabels: true, OnExcluded: pbt.Excluded, UncertainTTL: true, MissingTTLShape: true, MissingTTLError: true}
 	if pbt.Thorough() {
 		o.MaxItems = 16
 	}
